@@ -14,7 +14,8 @@ NEVER_KEYS = ["N1", "N2", "name", "args", "msg"]  # never mentioned by any gener
 WHOLE_KEYS = ["S", "L", "S.T"]  # prefixes of other keys (read as a whole section / list)
 
 SCALARS = [0, 1, 2, True, False, None, "", "a", "b"]
-WIDE_VALUES = [1.0, 1.5, -0.0, 2 ** 70, -1, "é¿ü", "w" * 300, "S.X", "A", [[1], []], [0, [1, [2]]]]
+WIDE_VALUES = [1.0, 1.5, -0.0, 2 ** 70, -1, "é¿ü", "w" * 300, "S.X", "A", [[1], []], [0, [1, [2]]],
+               "caf\udce9.csv"]  # (a lone surrogate: what os.fsdecode gives for a file name that is not UTF-8)
 DISPATCH_VALUES = ["a", "b", "c", 1, 2, None]  # hashable; no two equal in Python
 # (escaped braces appear in Template node texts only: a dictionary value "\\{lit\\}" resolves to "{lit}", which a
 #  template that stringifies it would re-interpret as a reference — a C09 matter, not claimed here)
